@@ -271,7 +271,9 @@ func genGoLine(t *rapid.T, engine string) (string, bool) {
 	case 4:
 		if rapid.IntRange(0, 2).Draw(t, "oddclock") == 0 {
 			// clocks that leave the side to move no budget: flag fallen, only one clock given
-			return rapid.SampledFrom([]string{"go wtime 0 btime 0", "go wtime 60000", "go btime 60000", "go wtime -50 btime -50", "go wtime 1 btime 1", "go wtime 0 btime 0 movestogo 1"}).Draw(t, "clock"), true
+			return rapid.SampledFrom([]string{"go wtime 0 btime 0", "go wtime 60000", "go btime 60000", "go wtime -50 btime -50", "go wtime 1 btime 1", "go wtime 0 btime 0 movestogo 1",
+				"go wtime 1000 btime 1000 movestogo 9223372036854775807", "go wtime 1000 btime 1000 movestogo 4611686018427387903", "go wtime 300 btime 300 movestogo -7",
+				"go depth 1 movetime 0"}).Draw(t, "clock"), true
 		}
 		return "go infinite", false
 	case 5: // a timer that outlives its search
@@ -279,7 +281,8 @@ func genGoLine(t *rapid.T, engine string) (string, bool) {
 	case 6:
 		return fmt.Sprintf("go depth %d wtime 60000 btime 60000", rapid.IntRange(1, maxDepth).Draw(t, "depth")), true
 	default:
-		return "go", bundleDefaultDepth(engine) > 0
+		// a move time that is not positive is no move time: like a bare go
+		return rapid.SampledFrom([]string{"go", "go", "go movetime 0", "go movetime -5"}).Draw(t, "bare"), bundleDefaultDepth(engine) > 0
 	}
 }
 
